@@ -28,15 +28,18 @@ const (
 	opSendTo // midi.SendTo(out)(msg): opens the out port itself
 	opInClose
 	opOutClose
+	opListenSysex // in.Listen with sysex enabled (second use of the port with another configuration)
+	opSendSysex
 	nLcOps
 )
 
-var lcNames = []string{"in.Open", "out.Open", "Send(note)", "in.Listen", "midi.ListenTo", "stop()", "Send(start)", "midi.SendTo(note)", "in.Close", "out.Close"}
+var lcNames = []string{"in.Open", "out.Open", "Send(note)", "in.Listen", "midi.ListenTo", "stop()", "Send(start)", "midi.SendTo(note)", "in.Close", "out.Close", "in.Listen(sysex)", "Send(sysex)"}
 
 type lcModel struct {
 	inOpen, outOpen bool
 	listener        int // 0 none, 1 active, 2 stopped
 	gen             int // id of the current listener
+	sysex           bool // the current listener asked for sysex
 }
 
 type lcInst struct {
@@ -57,7 +60,7 @@ func newLc() *lcInst {
 
 func (l *lcInst) enabled(op lcOp) bool {
 	switch op {
-	case opListen:
+	case opListen, opListenSysex:
 		return l.m.inOpen && l.m.listener != 1
 	case opListenTo:
 		return l.m.listener != 1
@@ -71,6 +74,7 @@ func (l *lcInst) enabled(op lcOp) bool {
 
 var note = []byte{0x92, 0x3C, 0x40}
 var start = []byte{0xFA}
+var sysexMsg = []byte{0xF0, 0x01, 0x02, 0xF7}
 
 // apply executes op on the driver and the model and returns a violation text.
 func (l *lcInst) apply(op lcOp) (sig, what string) {
@@ -100,12 +104,13 @@ func (l *lcInst) apply(op lcOp) (sig, what string) {
 		case opOutClose:
 			err = l.out.Close()
 			l.m.outOpen = false
-		case opListen, opListenTo:
+		case opListen, opListenTo, opListenSysex:
 			l.m.gen++
 			id := l.m.gen
 			var stop func()
-			if op == opListen {
-				stop, err = l.in.Listen(func(b []byte, ts int32) { l.got[id] = append(l.got[id], append([]byte(nil), b...)) }, drivers.ListenConfig{})
+			l.m.sysex = op == opListenSysex
+			if op == opListen || op == opListenSysex {
+				stop, err = l.in.Listen(func(b []byte, ts int32) { l.got[id] = append(l.got[id], append([]byte(nil), b...)) }, drivers.ListenConfig{SysEx: op == opListenSysex})
 			} else {
 				stop, err = midi.ListenTo(l.in, func(m midi.Message, ts int32) { l.got[id] = append(l.got[id], append([]byte(nil), m...)) })
 				l.m.inOpen = true
@@ -116,10 +121,13 @@ func (l *lcInst) apply(op lcOp) (sig, what string) {
 		case opStop:
 			l.stops[len(l.stops)-1]()
 			l.m.listener = 2
-		case opSendNote, opSendRT, opSendTo:
+		case opSendNote, opSendRT, opSendTo, opSendSysex:
 			msg := note
 			if op == opSendRT {
 				msg = start
+			}
+			if op == opSendSysex {
+				msg = sysexMsg
 			}
 			if op == opSendTo {
 				var send func(midi.Message) error
@@ -133,7 +141,7 @@ func (l *lcInst) apply(op lcOp) (sig, what string) {
 			}
 			if !l.m.outOpen {
 				expectErr = drivers.ErrPortClosed
-			} else if l.m.listener == 1 {
+			} else if l.m.listener == 1 && (op != opSendSysex || l.m.sysex) {
 				expectDelivered = 1
 			}
 		}
@@ -170,6 +178,9 @@ func (l *lcInst) apply(op lcOp) (sig, what string) {
 		if op == opSendRT {
 			want = start
 		}
+		if op == opSendSysex {
+			want = sysexMsg
+		}
 		if string(g[len(g)-1]) != string(want) {
 			return "lifecycle:delivered-bytes:" + name, fmt.Sprintf("delivered % X, sent % X", g[len(g)-1], want)
 		}
@@ -186,7 +197,7 @@ func relisten(l *lcInst) string {
 
 func (l *lcInst) key() string {
 	var b strings.Builder
-	fmt.Fprintf(&b, "%v %v %d|", l.m.inOpen, l.m.outOpen, l.m.listener)
+	fmt.Fprintf(&b, "%v %v %d %v|", l.m.inOpen, l.m.outOpen, l.m.listener, l.m.sysex)
 	livespace.Dump(&b, reflect.ValueOf(l.drv), map[uintptr]bool{})
 	return b.String()
 }
